@@ -1618,7 +1618,7 @@ class DirTls(CStruct):
     def build_content(self, raw):
         dirtls = self.parent_head.NThdr.optentries[DIRECTORY_ENTRY_TLS]
         of1 = dirtls.rva
-        if of1 is None:  # No Tls
+        if not of1:  # No Tls
             return
         raw[self.parent_head.rva2off(of1)] = bytes(self)
 
